@@ -12,13 +12,19 @@ Proof.
   unfold bal_unit_b, bal_unit, band_unit_b, band_unit. rewrite orb_true_iff, adjacent_b_iff, Z.leb_le. tauto.
 Qed.
 
+Lemma bal_i64_b_iff tot wl sr sl : bal_i64_b tot wl sr sl = true <-> bal_i64 tot wl sr sl.
+Proof.
+  unfold bal_i64_b, bal_i64, band_i64_b, band_i64. rewrite orb_true_iff, adjacent_b_iff.
+  destruct (tot <? 2 ^ 46)%Z; unfold band_unit_b, band_unit, band_unit_rel_b, band_unit_rel; rewrite Z.leb_le; tauto.
+Qed.
+
 Lemma bal_rel_b_iff e tot wl sr sl : bal_rel_b e tot wl sr sl = true <-> bal_rel e tot wl sr sl.
 Proof.
   unfold bal_rel_b, bal_rel, band_rel_b, band_rel. rewrite orb_true_iff, adjacent_b_iff, Z.leb_le. tauto.
 Qed.
 
 Lemma bal_prop_b_iff fw tot wl sr sl : bal_prop_b fw tot wl sr sl = true <-> bal_prop fw tot wl sr sl.
-Proof. destruct fw; [apply bal_unit_b_iff|apply bal_rel_b_iff]. Qed.
+Proof. destruct fw; [apply bal_i64_b_iff|apply bal_rel_b_iff]. Qed.
 
 Lemma TreeOK_mono D f (b1 b2 : Z -> Z -> Z -> Z -> Prop) :
   (forall t w r l, b1 t w r l -> b2 t w r l) ->
